@@ -98,6 +98,10 @@ pub enum Task {
     LineCol(usize),
     /// implementers map, subtype checks and meta-field lookups on the shared schema or a local one
     ImplMap(usize),
+    /// a schema derived programmatically from the shared one (same source map, one more object
+    /// type implementing an interface / joining a union), validated, and an operation validated
+    /// against it: what a thread did before with the shared schema must not leak into it
+    Derive(usize),
     /// a document and a schema parsed under an unusual source path (a path is a label, never an
     /// identity): ids of the user's own file and definitions, collected unfiltered
     Path(usize, usize),
@@ -131,6 +135,7 @@ impl Task {
             Task::LineCol(k) => format!("linecol:{k}"),
             Task::ImplMap(k) => format!("implmap:{k}"),
             Task::Path(i, p) => format!("path:{i}:{p}"),
+            Task::Derive(k) => format!("derive:{k}"),
         }
     }
     fn from_s(s: &str) -> Option<Task> {
@@ -151,6 +156,7 @@ impl Task {
             ["linecol", k] => Task::LineCol(k.parse().ok()?),
             ["implmap", k] => Task::ImplMap(k.parse().ok()?),
             ["path", i, p] => Task::Path(i.parse().ok()?, p.parse().ok()?),
+            ["derive", k] => Task::Derive(k.parse().ok()?),
             _ => return None,
         })
     }
@@ -165,6 +171,7 @@ impl Task {
                 | Task::Reuse(..)
                 | Task::LineCol(_)
                 | Task::ImplMap(_)
+                | Task::Derive(_)
         )
     }
 }
@@ -270,8 +277,10 @@ pub fn gen_case(run_seed: u64, tier: Tier, force_cold: Option<bool>) -> Case {
                     9 => Task::Introspect,
                     10 => Task::Multi(wl.usize(SCHEMAS.len()), wl.usize(SCHEMAS.len())),
                     _ => {
-                        let k = wl.below(9);
-                        if k == 8 {
+                        let k = wl.below(10);
+                        if k == 9 {
+                            Task::Derive(wl.usize(4))
+                        } else if k == 8 {
                             Task::Path(wl.usize(OPS.len().max(SCHEMAS.len())), wl.usize(PATHS.len()))
                         } else if k == 7 {
                             Task::ImplMap(wl.usize(SCHEMAS.len() + 1))
@@ -391,6 +400,53 @@ fn run_task(task: &Task, shared: Option<&Arc<Valid<Schema>>>, shared_ids: &BTree
             output: pipeline::ast_bundle(OPS[*i], "ast.graphql"),
             ids: vec![],
         },
+        Task::Derive(k) => {
+            use apollo_compiler::name;
+            use apollo_compiler::schema::ExtendedType;
+            let base = shared.expect("shared schema");
+            let mut schema: Schema = Schema::clone(base);
+            let iface = if k % 2 == 0 { name!("Node") } else { name!("Named") };
+            let mut obj = apollo_compiler::schema::ObjectType {
+                description: None,
+                name: name!("Bird"),
+                implements_interfaces: Default::default(),
+                directives: Default::default(),
+                fields: Default::default(),
+            };
+            obj.implements_interfaces.insert(name!("Node").into());
+            if k % 2 == 1 {
+                obj.implements_interfaces.insert(iface.clone().into());
+            }
+            let field = |n: Name, ty: apollo_compiler::ast::Type| apollo_compiler::schema::FieldDefinition {
+                description: None,
+                name: n,
+                arguments: vec![],
+                ty,
+                directives: Default::default(),
+            };
+            obj.fields.insert(name!("id"), field(name!("id"), apollo_compiler::ty!(ID!)).into());
+            obj.fields.insert(name!("name"), field(name!("name"), apollo_compiler::ty!(String)).into());
+            obj.fields.insert(name!("wings"), field(name!("wings"), apollo_compiler::ty!(Int)).into());
+            schema.types.insert(name!("Bird"), ExtendedType::Object(obj.into()));
+            if k / 2 == 1 {
+                if let Some(ExtendedType::Union(u)) = schema.types.get_mut("Pet") {
+                    u.make_mut().members.insert(name!("Bird").into());
+                }
+            }
+            let mut out = String::new();
+            match schema.validate() {
+                Ok(valid) => {
+                    let _ = writeln!(out, "DERIVED OK");
+                    let op = "{ node(id: 1) { ... on Bird { wings } ... on Named { name ... on Bird { id } } } me { pet { ... on Bird { wings } } } search(text: \"x\") { ... on Bird { id } } }";
+                    out.push_str(&pipeline::exec_bundle(&valid, op, "derived_op.graphql"));
+                    out.push_str(&pipeline::introspection_bundle(&valid));
+                }
+                Err(e) => {
+                    let _ = writeln!(out, "DERIVED INVALID\n{}", pipeline::diag_bundle(&e.errors));
+                }
+            }
+            TaskResult { output: out, ids: vec![] }
+        }
         Task::Path(i, p) => {
             let path = PATHS[*p % PATHS.len()];
             let mut ids: Vec<u64> = vec![];
@@ -902,7 +958,25 @@ fn exec_case_inner(case: &Case) -> CaseResult {
                     // a counter wrap the second source may get the smaller id, by design
                     continue;
                 }
-                let reference = run_task(task, shared.as_ref(), &sids);
+                // on a thread of its own: "executed alone" includes not inheriting what some other
+                // task left in thread-local state
+                let reference = std::thread::scope(|sc| {
+                    std::thread::Builder::new()
+                        .stack_size(16 << 20)
+                        .spawn_scoped(sc, || run_task(task, shared.as_ref(), &sids))
+                        .expect("spawn reference thread")
+                        .join()
+                });
+                let reference = match reference {
+                    Ok(r) => r,
+                    Err(_) => {
+                        viol(
+                            "panic",
+                            format!("sequential execution of {} panicked: {}", task.to_s(), crate::exec::take_last_panic()),
+                        );
+                        continue;
+                    }
+                };
                 if reference.output != r.output {
                     let at = reference
                         .output
